@@ -62,6 +62,24 @@ checks["C14"] = (MC,
 
 # extra entries are appended by later edits of this file
 EXTRA_CHECKS = {}
+EXTRA_CHECKS["C08"] = (TV,
+    "as C01 with a string value of 1..2 (quick) / 1..3 (thorough) symbolic bytes over printable ASCII + newline/tab "
+    "travelling along 17 data paths from 3 origins (raw literal, file read at run time, standard input); ShSem records "
+    "for every data byte the condition under which the shell would interpret it (quote, expansion, escape, word "
+    "splitting, globbing, option); one violation condition per path (some byte is active OR an observable differs) is "
+    "enumerated per character class by z3, every class witness is re-run on the real bash",
+    trust_sh + "; known findings are keyed by (data path, origin, character class) - the region they mask is exactly "
+    "those classes; anything else is reported", tech_sh + " with per-character-class enumeration of counterexamples")
+EXTRA_CHECKS["C17"] = (TV,
+    "as C08 for histories of write/append/read/exists over two paths (top level and in a function, plus a path with a "
+    "blank): the resulting virtual file system and the printed reads are compared with a line-store model for all "
+    "contents; violations enumerated per character class and confirmed on the real bash (file system included)",
+    trust_sh, tech_sh)
+EXTRA_CHECKS["C18"] = (TV,
+    "as C08 for program calls: probe programs print their argument vector and standard input; the value under test sits "
+    "at a symbolic argument position, literal or via a variable, in call statements, captures and 2..3-stage pipelines "
+    "with exit statuses 0/3/200; expected argv/pipe/capture behaviour from the reference model; Bash only",
+    trust_sh + "; the Batch counterpart (_ach through cmd /V:ON) is not claimed (no cmd.exe)", tech_sh)
 EXTRA_CHECKS["C06"] = (MC,
     "symbolic execution of the real front-end and both back-ends on a table of typed positions x contexts; the offered "
     "expression is a variable whose declared type is 8 symbolic bytes (constrained to the 8 type spellings) or a call "
